@@ -983,8 +983,8 @@ func hitsInCurrentPage(req *SearchRequest, hits []*search.DocumentMatch) []*sear
 	} else if req.From > 0 {
 		hits = search.DocumentMatchCollection{}
 	}
-	// now trim to the correct size
-	if req.Size > 0 && len(hits) > req.Size {
+	// now trim to the correct size (a size of 0 asks for no hits at all)
+	if req.Size >= 0 && len(hits) > req.Size {
 		hits = hits[0:req.Size]
 	}
 	return hits
